@@ -24,8 +24,8 @@ Qed.
 
 (* ---- 1, 2: the invariant along histories ---------------------------------- *)
 
-Lemma op_ok_reuse s pid st :
-  op_ok s (OInsert pid st) = true -> reuse_ok s (new_job pid st).
+Lemma op_ok_reuse s pid st name :
+  op_ok s (OInsert pid st name) = true -> reuse_ok s (new_job pid st name).
 Proof.
   unfold reuse_ok. cbn. intros H i j0 F G. rewrite F, G in H.
   apply negb_true_iff in H. apply not_alive_not_stopped. exact H.
@@ -66,8 +66,8 @@ Qed.
 Lemma step_no_panic_l s o : Inv s -> op_ok s o = true -> step_panics s o = false.
 Proof.
   intros I H. destruct o; cbn [step_panics]; auto.
-  - pose proof (op_ok_reuse _ _ _ H) as R.
-    set (j := new_job pid st) in *. unfold insert_panics. apply orb_false_iff. split.
+  - pose proof (op_ok_reuse _ _ _ _ H) as R.
+    set (j := new_job pid st name) in *. unfold insert_panics. apply orb_false_iff. split.
     + destruct (find_by_pid s (jpid j)) as [i|] eqn:F; auto.
       rewrite (find_contains _ _ _ I F). reflexivity.
     + destruct (opt_susp s (current_job s)) as [[|]|]; auto.
@@ -240,9 +240,9 @@ Qed.
 
 (* ---- 6: the run-time oracle accepts every observation of an Inv state ------ *)
 
-Definition vw (p : nat * job) : nat * (Z * pstate * bool * bool) := (fst p, job_view (snd p)).
+Definition vw (p : nat * job) : nat * view := (fst p, job_view (snd p)).
 
-Lemma o_jobs_observe pids s : o_jobs (observe pids s) = map vw (iter s).
+Lemma o_jobs_observe pids ids s : o_jobs (observe pids ids s) = map vw (iter s).
 Proof. reflexivity. Qed.
 
 Lemma filter_head {A} (f : A -> bool) L x r : filter f L = x :: r -> In x L /\ f x = true.
@@ -270,8 +270,8 @@ Proof.
   - intros [j [G ->]]. exists (i, j). split; auto. apply in_iter. exact G.
 Qed.
 
-Lemma lookup_observe pids s i :
-  lookup_idx (observe pids s) i = option_map job_view (get s i).
+Lemma lookup_observe pids ids s i :
+  lookup_idx (observe pids ids s) i = option_map job_view (get s i).
 Proof.
   unfold lookup_idx. rewrite o_jobs_observe.
   destruct (filter (fun p => Nat.eqb (fst p) i) (map vw (iter s))) as [|[i0 v] r] eqn:E.
@@ -282,20 +282,20 @@ Proof.
     apply in_vw in Hin. destruct Hin as [j [G ->]]. rewrite G. reflexivity.
 Qed.
 
-Lemma lookup_some pids s i j :
+Lemma lookup_some pids ids s i j :
   get s i = Some j ->
-  match lookup_idx (observe pids s) i with Some _ => true | None => false end = true.
+  match lookup_idx (observe pids ids s) i with Some _ => true | None => false end = true.
 Proof. intros G. rewrite lookup_observe, G. reflexivity. Qed.
 
-Lemma idx_susp_observe pids s i :
-  svL (slots s) i = Some true -> idx_susp (observe pids s) i = true.
+Lemma idx_susp_observe pids ids s i :
+  svL (slots s) i = Some true -> idx_susp (observe pids ids s) i = true.
 Proof.
   intros H. apply svL_some_get in H. destruct H as [j [G Sj]].
   unfold idx_susp. rewrite lookup_observe, G. cbn. exact Sj.
 Qed.
 
-Lemma nsusp_observe pids s :
-  filter (fun p => is_stopped (v_state (snd p))) (o_jobs (observe pids s)) =
+Lemma nsusp_observe pids ids s :
+  filter (fun p => is_stopped (v_state (snd p))) (o_jobs (observe pids ids s)) =
   map vw (filter (fun p => suspended (snd p)) (iter s)).
 Proof. rewrite o_jobs_observe, filter_map. reflexivity. Qed.
 
@@ -338,32 +338,32 @@ Qed.
 Definition nsusp_of (ob : obs) : nat :=
   length (filter (fun p => is_stopped (v_state (snd p))) (o_jobs ob)).
 
-Lemma len_observe s pids (I : Inv s) : length (o_jobs (observe pids s)) = len s.
+Lemma len_observe s pids ids (I : Inv s) : length (o_jobs (observe pids ids s)) = len s.
 Proof. rewrite o_jobs_observe, map_length. reflexivity. Qed.
 
-Lemma clause0 s pids (I : Inv s) :
-  (Nat.eqb (length (o_jobs (observe pids s))) 0) ||
-  match o_cur (observe pids s) with
-  | Some c => match lookup_idx (observe pids s) c with Some _ => true | None => false end
+Lemma clause0 s pids ids (I : Inv s) :
+  (Nat.eqb (length (o_jobs (observe pids ids s))) 0) ||
+  match o_cur (observe pids ids s) with
+  | Some c => match lookup_idx (observe pids ids s) c with Some _ => true | None => false end
   | None => false
   end = true.
 Proof.
-  rewrite (len_observe s pids I). destruct (Nat.eqb_spec (len s) 0) as [E|E]; auto. cbn [orb].
+  rewrite (len_observe s pids ids I). destruct (Nat.eqb_spec (len s) 0) as [E|E]; auto. cbn [orb].
   destruct (len_one s) as [i [j G]]; [lia|].
   destruct (cur_exists _ _ _ I G) as [C [jc Gc]].
   cbn [o_cur observe]. rewrite C. eapply lookup_some; eauto.
 Qed.
 
-Lemma clause1 s pids (I : Inv s) :
-  (Nat.ltb (length (o_jobs (observe pids s))) 2) ||
-  match o_prev (observe pids s), o_cur (observe pids s) with
+Lemma clause1 s pids ids (I : Inv s) :
+  (Nat.ltb (length (o_jobs (observe pids ids s))) 2) ||
+  match o_prev (observe pids ids s), o_cur (observe pids ids s) with
   | Some p, Some c =>
       negb (Nat.eqb p c) &&
-      match lookup_idx (observe pids s) p with Some _ => true | None => false end
+      match lookup_idx (observe pids ids s) p with Some _ => true | None => false end
   | _, _ => false
   end = true.
 Proof.
-  rewrite (len_observe s pids I). destruct (Nat.ltb_spec (len s) 2) as [E|E]; auto. cbn [orb].
+  rewrite (len_observe s pids ids I). destruct (Nat.ltb_spec (len s) 2) as [E|E]; auto. cbn [orb].
   destruct (len_two s E) as (i1 & i2 & j1 & j2 & N & G1 & G2).
   destruct (prev_exists _ _ _ _ _ I N G1 G2) as (P & Ne & jp & Gp).
   destruct (cur_exists _ _ _ I G1) as [C _].
@@ -371,8 +371,8 @@ Proof.
   apply Nat.eqb_neq in Ne. rewrite Ne. cbn [negb andb]. eapply lookup_some; eauto.
 Qed.
 
-Lemma nsusp_eq s pids (I : Inv s) :
-  nsusp_of (observe pids s) = length (filter (fun p => suspended (snd p)) (iter s)).
+Lemma nsusp_eq s pids ids (I : Inv s) :
+  nsusp_of (observe pids ids s) = length (filter (fun p => suspended (snd p)) (iter s)).
 Proof. unfold nsusp_of. rewrite nsusp_observe, map_length. reflexivity. Qed.
 
 Lemma in_susp s i j :
@@ -382,14 +382,14 @@ Proof.
   rewrite (svL_get _ _ _ Hin). cbn in Sj. rewrite Sj. reflexivity.
 Qed.
 
-Lemma clause2 s pids (I : Inv s) :
-  (Nat.eqb (nsusp_of (observe pids s)) 0) ||
-  match o_cur (observe pids s) with
-  | Some c => idx_susp (observe pids s) c
+Lemma clause2 s pids ids (I : Inv s) :
+  (Nat.eqb (nsusp_of (observe pids ids s)) 0) ||
+  match o_cur (observe pids ids s) with
+  | Some c => idx_susp (observe pids ids s) c
   | None => false
   end = true.
 Proof.
-  rewrite (nsusp_eq s pids I).
+  rewrite (nsusp_eq s pids ids I).
   destruct (Nat.eqb_spec (length (filter (fun p => suspended (snd p)) (iter s))) 0) as [E|E];
     auto. cbn [orb].
   destruct (one_of_list _ E) as [[i j] Hin]. pose proof (in_susp s _ _ Hin) as Si.
@@ -399,14 +399,14 @@ Proof.
   apply Inv_elim in I. destruct I as (_ & _ & _ & _ & C3 & _). eapply C3; eauto.
 Qed.
 
-Lemma clause3 s pids (I : Inv s) :
-  (Nat.ltb (nsusp_of (observe pids s)) 2) ||
-  match o_prev (observe pids s) with
-  | Some p => idx_susp (observe pids s) p
+Lemma clause3 s pids ids (I : Inv s) :
+  (Nat.ltb (nsusp_of (observe pids ids s)) 2) ||
+  match o_prev (observe pids ids s) with
+  | Some p => idx_susp (observe pids ids s) p
   | None => false
   end = true.
 Proof.
-  rewrite (nsusp_eq s pids I).
+  rewrite (nsusp_eq s pids ids I).
   destruct (Nat.ltb_spec (length (filter (fun p => suspended (snd p)) (iter s))) 2) as [E|E];
     auto. cbn [orb].
   destruct (two_of_list _ (nodup_fst_filter _ _ (nodup_iter s)) E)
@@ -419,9 +419,9 @@ Proof.
   apply Inv_elim in I. destruct I as (_ & _ & _ & _ & _ & C4). eapply C4; eauto.
 Qed.
 
-Lemma clause4 s pids (I : Inv s) :
-  nodupb Z.eqb (map (fun p => v_pid (snd p)) (o_jobs (observe pids s))) &&
-  nodupb Nat.eqb (map fst (o_jobs (observe pids s))) = true.
+Lemma clause4 s pids ids (I : Inv s) :
+  nodupb Z.eqb (map (fun p => v_pid (snd p)) (o_jobs (observe pids ids s))) &&
+  nodupb Nat.eqb (map fst (o_jobs (observe pids ids s))) = true.
 Proof.
   rewrite o_jobs_observe, !map_map. apply andb_true_iff. split.
   - apply nodupb_true; [apply Z.eqb_eq|]. apply nodup_map_key; [apply nodup_iter|].
@@ -431,10 +431,10 @@ Proof.
   - apply nodupb_true; [apply Nat.eqb_eq|]. cbn. apply nodup_iter.
 Qed.
 
-Lemma clause5 s pids (I : Inv s) :
+Lemma clause5 s pids ids (I : Inv s) :
   forallb (fun q => option_eqb Nat.eqb (snd q)
-            (match filter (fun p => Z.eqb (v_pid (snd p)) (fst q)) (o_jobs (observe pids s)) with
-             | (i, _) :: _ => Some i | [] => None end)) (o_find (observe pids s)) = true.
+            (match filter (fun p => Z.eqb (v_pid (snd p)) (fst q)) (o_jobs (observe pids ids s)) with
+             | (i, _) :: _ => Some i | [] => None end)) (o_find (observe pids ids s)) = true.
 Proof.
   apply forallb_forall. intros q Hq. cbn [o_find observe] in Hq.
   apply in_map_iff in Hq. destruct Hq as [p [<- _]]. cbn [fst snd].
@@ -451,25 +451,8 @@ Proof.
     apply (inv_pid_of_job s I). exact G.
 Qed.
 
-Lemma idnum s pids k :
-  (if contains s k then Some k else None) =
-  match lookup_idx (observe pids s) k with Some _ => Some k | None => None end.
-Proof.
-  rewrite lookup_observe. unfold contains. destruct (get s k); reflexivity.
-Qed.
-
-Lemma clause6 s pids (I : Inv s) :
-  list_eqb (option_eqb Nat.eqb) (o_ids (observe pids s))
-    ([o_cur (observe pids s); o_prev (observe pids s)] ++
-     map (fun k => match lookup_idx (observe pids s) k with Some _ => Some k | None => None end)
-         [0;1;2;3;4;5]) = true.
-Proof.
-  apply (list_eqb_spec _ (option_eqb_spec Nat.eqb Nat.eqb_eq)).
-  cbn [map app]. rewrite <- !(idnum s pids). reflexivity.
-Qed.
-
-Lemma clause7 s pids (I : Inv s) :
-  match o_prev (observe pids s), o_cur (observe pids s) with
+Lemma clause7 s pids ids (I : Inv s) :
+  match o_prev (observe pids ids s), o_cur (observe pids ids s) with
   | Some p, Some c => negb (Nat.eqb p c)
   | Some _, None => false
   | None, _ => true
@@ -482,23 +465,3 @@ Proof.
   destruct (cur_exists _ _ _ I G) as [C _]. rewrite C. exact E1.
 Qed.
 
-Lemma inv_obs_sound_s s pids (I : Inv s) : inv_obs (observe pids s) = true.
-Proof.
-  unfold inv_obs. rewrite first_false_all; auto.
-  unfold inv_obs_clauses. cbv zeta. cbn [forallb].
-  rewrite (clause0 s pids I), (clause1 s pids I), (clause4 s pids I), (clause5 s pids I),
-    (clause6 s pids I), (clause7 s pids I).
-  fold (nsusp_of (observe pids s)). rewrite (clause2 s pids I), (clause3 s pids I).
-  reflexivity.
-Qed.
-
-Lemma inv_obs_sound_l s pids : Inv s -> inv_obs (observe pids s) = true.
-Proof. intros I. apply inv_obs_sound_s. exact I. Qed.
-
-(* ---- 8: why the precondition on insert is there ----------------------------- *)
-
-Lemma insert_live_pid_breaks_inv_l :
-  inv_obs (observe [10; 11]%Z
-             (run [OInsert 10 Running; OInsert 11 (Stopped 19); OInsert 11 (Stopped 19)]))
-  = false.
-Proof. vm_compute. reflexivity. Qed.
